@@ -26,16 +26,16 @@ Proof.
   - exists [OpStart 0; Begin; Write 1; Commit; OpEnd false]. repeat split; reflexivity.
 Qed.
 
-Lemma all_methods_bracketed :
-  forallb (fun p => atomic_shape (snd p) || known_nonatomic (fst p)) shapes = true.
+Lemma all_methods_bracketed : forallb (fun p => atomic_shape (snd p)) shapes = true.
 Proof. vm_compute. reflexivity. Qed.
 
-Lemma remove_retained_not_atomic_refuted :
-  lookup_shape "WalletCommitmentTrees::remove_retained_checkpoints_below" shapes = Some Other /\
+(** Regression example: the trace observed on remove_retained_checkpoints_below before the fix
+    (the trait default committing once per pool) is rejected by the checker, and a crash between
+    its commits leaves a third state in the reference semantics. *)
+Lemma per_pool_commits_refuted :
   exists t p r, disciplined t = false /\ t = p ++ r /\
     durable (log_sem (p ++ [Crash])) = [126] /\ durable (log_sem t) = [126; 98].
 Proof.
-  split; [vm_compute; reflexivity|].
   exists [OpStart 29; Begin; Write 126; Commit; Begin; Write 98; Commit; Begin; TxnEnd; OpEnd true],
          [OpStart 29; Begin; Write 126; Commit; Begin], [Write 98; Commit; Begin; TxnEnd; OpEnd true].
   repeat split; reflexivity.
